@@ -331,23 +331,33 @@ def extract_child(stackitem: StackItem, *, for_task: bool) -> Stack:
     errors: List[Exception] = []
     it = extract_iter(stackitem, errors)
     frames = []
+    leaf: StackItem = None
     while True:
         try:
             frames.append(next(it))
         except StopIteration as ex:
-            error: Optional[Exception]
-            if len(errors) > 1:
-                error = ExceptionGroup(
-                    "multiple errors encountered while extracting stack", errors
-                )
-            else:
-                error = errors[0] if errors else None
-            return Stack(
-                root=(None if isinstance(stackitem, StackSlice) else stackitem),
-                frames=frames,
-                leaf=ex.value,
-                error=error,
-            )
+            leaf = ex.value
+            break
+        except Exception as ex:
+            # extract_iter() saves the exceptions it anticipates (those raised
+            # by hooks); this one came from somewhere else, such as an
+            # isinstance() check on an object whose __class__ is a property
+            # that raises. Report it with whatever we got so far.
+            errors.append(ex)
+            break
+    error: Optional[Exception]
+    if len(errors) > 1:
+        error = ExceptionGroup(
+            "multiple errors encountered while extracting stack", errors
+        )
+    else:
+        error = errors[0] if errors else None
+    return Stack(
+        root=(None if issubclass(type(stackitem), StackSlice) else stackitem),
+        frames=frames,
+        leaf=leaf,
+        error=error,
+    )
 
 
 def extract_outermost(
